@@ -39,6 +39,9 @@ pub struct PhaseObs {
     pub hints_ok: bool,
     pub yielded: Vec<RMove>,
     pub terminated: bool,
+    /// sporadic observation mode: (number of next() calls made before, len())
+    pub sparse_lens: Vec<(usize, usize)>,
+    pub sparse_hints: Vec<(usize, usize, Option<usize>)>,
 }
 
 /// Execute a program on the real generator.
@@ -48,6 +51,12 @@ pub fn execute(b: &Board, prog: &Program) -> Vec<PhaseObs> {
 /// `observe` = read len() and size_hint() before every next(); false = never call them (a caller that
 /// just iterates: internal bookkeeping that a len() call happens to refresh stays stale)
 pub fn execute_mode(b: &Board, prog: &Program, observe: bool) -> Vec<PhaseObs> {
+    execute_obs(b, prog, if observe { 1 } else { 0 })
+}
+/// mode 0: no len() / size_hint() call; 1: before every next(); 2: len() only before every third next()
+/// (starting with the second), size_hint() before the others — lens then holds (index, value) via `lens_at`
+pub fn execute_obs(b: &Board, prog: &Program, mode: u8) -> Vec<PhaseObs> {
+    let observe = mode == 1;
     let mut g = MoveGen::new_legal(b);
     for r in prog.removals.iter() {
         match r {
@@ -79,8 +88,16 @@ pub fn execute_mode(b: &Board, prog: &Program, observe: bool) -> Vec<PhaseObs> {
         if late_now && prog.late_after_mask {
             apply_late(&mut g);
         }
-        let mut o = PhaseObs { lens: vec![], hints_ok: true, yielded: vec![], terminated: false };
-        for _ in 0..400 {
+        let mut o = PhaseObs { lens: vec![], hints_ok: true, yielded: vec![], terminated: false, sparse_lens: vec![], sparse_hints: vec![] };
+        for step_no in 0..400usize {
+            if mode == 2 {
+                if step_no % 3 == 1 {
+                    o.sparse_lens.push((step_no, g.len()));
+                } else {
+                    let (lo, hi) = g.size_hint();
+                    o.sparse_hints.push((step_no, lo, hi));
+                }
+            }
             if observe {
                 let l = g.len();
                 o.lens.push(l);
@@ -224,6 +241,18 @@ fn judge(run: &Run, p: &RefPos, legal: &[RMove], prog: &Program, obs: &[PhaseObs
                 return Err(("len".into(), shape(&format!("len() wrong {when}")), format!("phase {i}: len() read before next() #{k} is {l}, but {want} moves are still yielded; lens {:?}; yield {:?}", o.lens, names(&o.yielded))));
             }
         }
+        for (k, l) in o.sparse_lens.iter() {
+            let want = n.saturating_sub(*k);
+            if *l != want {
+                return Err(("len".into(), shape("len() wrong when read only now and then"), format!("phase {i}: len() read after {k} next() calls (and not before every one) is {l}, but {want} moves are still yielded")));
+            }
+        }
+        for (k, lo, hi) in o.sparse_hints.iter() {
+            let want = n.saturating_sub(*k);
+            if *lo > want || hi.map(|h| h < want).unwrap_or(false) {
+                return Err(("size-hint".into(), shape("size_hint() bounds wrong when read without len()"), format!("phase {i}: size_hint() after {k} next() calls is ({lo}, {:?}), but {want} moves are still yielded", hi)));
+            }
+        }
         if !o.hints_ok {
             return Err(("size-hint".into(), shape("size_hint != (len, Some(len))"), format!("phase {i}")));
         }
@@ -267,6 +296,11 @@ fn masks(p: &RefPos, legal: &[RMove], max_single: usize) -> Vec<u64> {
     if let Some(m) = legal.first() {
         v.push(0x0101010101010101u64 << (m.to % 8));
     }
+    // two squares: the destinations of the first and of the last legal move; and the set of all SOURCE squares
+    if let (Some(a), Some(z)) = (legal.first(), legal.last()) {
+        v.push((1u64 << a.to) | (1u64 << z.to));
+    }
+    v.push(legal.iter().fold(0u64, |acc, m| acc | (1u64 << m.from)));
     v.dedup();
     v
 }
@@ -336,6 +370,35 @@ fn programs(p: &RefPos, legal: &[RMove], tier: Tier) -> Vec<Program> {
             out.push(Program { removals: vec![], phases: vec![*x, *x, flush], late: Some((1, *r)), late_after_mask: true });
             for y in ph.iter().take(4) {
                 out.push(Program { removals: vec![], phases: vec![*y, *x, flush], late: Some((1, *r)), late_after_mask: true });
+            }
+        }
+    }
+    // an early removal AND a late one with a phase in between: [r1][phase x][r2][phase y][flush]
+    for r1 in rem.iter().take(8).chain(rem.iter().filter(|r| matches!(r, Removal::Mask(_))).take(4)) {
+        for r2 in rem.iter() {
+            for x in ph.iter().take(4) {
+                out.push(Program { removals: vec![*r1], phases: vec![*x, flush], late: Some((1, *r2)), late_after_mask: false });
+                out.push(Program { removals: vec![*r1], phases: vec![*x, *x, flush], late: Some((1, *r2)), late_after_mask: true });
+            }
+        }
+    }
+    if p.men() <= 8 {
+        // four mask phases, and three removals, on sparse positions
+        for x in ph.iter() {
+            for y in ph.iter() {
+                for z in ph.iter().take(6) {
+                    for w in ph.iter().take(6) {
+                        out.push(Program { removals: vec![], phases: vec![*x, *y, *z, *w, flush], late: None, late_after_mask: false });
+                    }
+                }
+            }
+        }
+        for (i, r1) in rem.iter().enumerate() {
+            for (j, r2) in rem.iter().enumerate().skip(i) {
+                for r3 in rem.iter().skip(j) {
+                    out.push(Program { removals: vec![*r1, *r2, *r3], phases: vec![None], late: None, late_after_mask: false });
+                    out.push(Program { removals: vec![*r1, *r2, *r3], phases: vec![ph[0], flush], late: None, late_after_mask: false });
+                }
             }
         }
     }
@@ -432,6 +495,33 @@ fn adaptors(run: &Run, p: &RefPos, b: &Board, legal: &[RMove]) -> u64 {
                     }
                 }
             }
+            // an adaptor that advances the cursor, the REST of the phase iterated to exhaustion, then a new (full)
+            // mask: nothing of the exhausted phase may come again, everything else must, and len() must say so
+            let all: Vec<RMove> = MoveGen::new_legal(b).map(rmove).collect();
+            for k in 0..=plain.len() {
+                for which in 0..2 {
+                    let mut g = make();
+                    if which == 0 {
+                        let _ = g.nth(k);
+                    } else {
+                        let _ = g.by_ref().take(k).count();
+                    }
+                    let mut guard_n = 0;
+                    while g.next().is_some() && guard_n < 400 {
+                        guard_n += 1;
+                    }
+                    g.set_iterator_mask(!chess::EMPTY);
+                    let l = g.len();
+                    let rest: Vec<RMove> = g.take(400).map(rmove).collect();
+                    let mut want: Vec<RMove> = all.iter().copied().filter(|m| !plain.contains(m)).collect();
+                    let mut got_sorted = rest.clone();
+                    got_sorted.sort();
+                    want.sort();
+                    if got_sorted != want || l != want.len() {
+                        note(format!("after {}, the rest of the phase, and then set_iterator_mask(full): len() = {l}, {} moves follow, expected {} (the moves of the exhausted phase must not return, all others must)", if which == 0 { format!("nth({k})") } else { format!("by_ref().take({k})") }, rest.len(), want.len()));
+                    }
+                }
+            }
             for k in 0..=plain.len() + 1 {
                 let mut g = make();
                 let got = g.nth(k).map(rmove);
@@ -519,6 +609,24 @@ fn check_position(run: &Run, p: &RefPos, tier: Tier, nprog: &AtomicU64) {
                     }
                 }
                 blind_nexts += blind.iter().map(|o| o.yielded.len() as u64 + 1).sum::<u64>();
+                // ... and once more reading len() only now and then (size_hint() in between)
+                match guard::lib(|| execute_obs(&b, prog, 2)) {
+                    Ok(sp) => {
+                        if let Err((clause, shape, detail)) = judge(run, p, &legal, prog, &sp) {
+                            let mut c = prog_json(p, prog);
+                            c["observe_mode"] = json!(2);
+                            let v = Violation::new("C14", &clause, &format!("{shape}; len() read only now and then"), format!("{detail}\n  position {}\n  program (len() before every third next(), size_hint() otherwise) {}", p.fen(), prog_json(p, prog)), c);
+                            if run.report(v) {
+                                break;
+                            }
+                        }
+                        blind_nexts += sp.iter().map(|o| o.yielded.len() as u64 + 1).sum::<u64>();
+                    }
+                    Err(e) => {
+                        run.report(Violation::new("C14", "panic", "", format!("program panicked (sporadic len() calls): {e}"), prog_json(p, prog)));
+                        break;
+                    }
+                }
                 let obs = match guard::lib(|| execute(&b, prog)) {
                     Ok(o) => o,
                     Err(e) => {
@@ -560,7 +668,7 @@ fn check_position(run: &Run, p: &RefPos, tier: Tier, nprog: &AtomicU64) {
     run.transitions.fetch_add(nexts + phases, Ordering::Relaxed);
 }
 
-pub const RULE: &str = "per position (iterator-specific roots: pawn with push and en-passant capture, two capturers, promoting pawns with 1-3 destinations, in check, double check, many movers; plus curated roots and their children): EVERY program of the form [<=2 removals] then [<=3 mask phases] then a full-mask flush, within the bounds (0 removals: <=3 phases (<=2 on dense positions in quick); 1 removal: <=2 phases; 2 removals: <=1 phase; one removal issued BETWEEN two exhausted phases: [phase][removal][<=1 phase]; one removal issued right AFTER a set_iterator_mask call and before the first next() of that phase (first or second phase); plus the fresh generator iterated without any mask call). Removals range over remove_move of every legal move, two illegal moves, and remove_mask of every partial mask of the alphabet; masks over {enemy men, complement, full, empty, both back ranks, a file, single destination squares (special moves first)}. Every phase is iterated to exhaustion with len() and size_hint() read before every next() and after None; every program is executed a second time WITHOUT any len() / size_hint() call. Per position also the provided Iterator methods (count, last, fold, nth(k) for every k with the rest of the iteration, by_ref().take(k) + rest, skip, step_by) on the fresh generator and under the first masks of the alphabet, compared with plain next() iteration. Oracle: reference remaining-move set (no duplicates, nothing excluded is yielded, everything else under the mask is, len = number still yielded, union = legal minus excluded). states = programs, transitions = next() calls + mask settings. distinct_nontrivial = programs with at least one removal or a partial mask";
+pub const RULE: &str = "per position (iterator-specific roots: pawn with push and en-passant capture, two capturers, promoting pawns with 1-3 destinations, in check, double check, many movers; plus curated roots and their children): EVERY program of the form [<=2 removals] then [<=3 mask phases] then a full-mask flush, within the bounds (0 removals: <=3 phases (<=2 on dense positions in quick); 1 removal: <=2 phases; 2 removals: <=1 phase; one removal issued BETWEEN two exhausted phases: [phase][removal][<=1 phase]; one removal issued right AFTER a set_iterator_mask call and before the first next() of that phase (first or second phase); plus the fresh generator iterated without any mask call). Removals range over remove_move of every legal move, two illegal moves, and remove_mask of every partial mask of the alphabet; masks over {enemy men, complement, full, empty, both back ranks, a file, single destination squares (special moves first)}. Every phase is iterated to exhaustion with len() and size_hint() read before every next() and after None; every program is executed a second time WITHOUT any len() / size_hint() call and a third time with len() read only before every third next() (size_hint() in between). Further shapes: an early removal plus a late one with a phase in between; on positions with at most 8 men four mask phases and three removals; the mask alphabet also holds the pair {destination of the first, destination of the last legal move} and the set of all source squares. Per position also the provided Iterator methods (count, last, fold, nth(k) for every k with the rest of the iteration, by_ref().take(k) + rest, skip, step_by) on the fresh generator and under the first masks of the alphabet, compared with plain next() iteration. Oracle: reference remaining-move set (no duplicates, nothing excluded is yielded, everything else under the mask is, len = number still yielded, union = legal minus excluded). states = programs, transitions = next() calls + mask settings. distinct_nontrivial = programs with at least one removal or a partial mask";
 
 pub fn run(tier: Tier) -> i32 {
     let run = Arc::new(Run::new("C14", tier, COUNTERS));
@@ -621,7 +729,8 @@ pub fn replay(case: &Value) -> i32 {
                 return crate::replay_verdict(&run);
             }
             let observe = case["observe_len"].as_bool().unwrap_or(true);
-            match guard::lib(|| execute_mode(&b, &prog, observe)) {
+            let mode = case["observe_mode"].as_u64().map(|m| m as u8).unwrap_or(if observe { 1 } else { 0 });
+            match guard::lib(|| execute_obs(&b, &prog, mode)) {
                 Ok(obs) => {
                     if let Err((clause, shape, detail)) = judge(&run, &p, &legal, &prog, &obs) {
                         run.report(Violation::new("C14", &clause, &shape, detail, case.clone()));
